@@ -1,8 +1,9 @@
 import Driver.Util
 import Model.Widths
+import Model.WidthsHist
 /-! JSON ops for C08 (column widths).  Rationals travel as strings "num/den" (den > 0). -/
 namespace Driver
-open Lean Model.Widths
+open Lean Model.Widths Model.WidthsHist
 
 def parseRat (s : String) : R Rat :=
   match s.splitOn "/" with
@@ -120,10 +121,27 @@ def opConstructSections (j : Json) : R Json := do
   let (ws, objsEnd) := constructSections objs secs
   return Json.mkObj [("widths", jList jRats ws), ("objs_after", jList (jOpt jRats) objsEnd)]
 
+/-- op `c08_page_history`: one page object from its construction (`w0` = the col_width it resolves) through
+`["set", w]` / `["other"]` / `["encode"]` → the configured table width at every encode -/
+def opPageHistory (j : Json) : R Json := do
+  let w0 ← ratF j "w0"
+  let ops ← listF (fun v => do
+    match ← asArr v with
+    | [k] => match ← asStr k with
+      | "other" => return PageOp.other
+      | "encode" => return PageOp.encode
+      | s => throw s!"page op: {s}"
+    | [k, w] => match ← asStr k with
+      | "set" => return PageOp.setWidth (← asRat w)
+      | s => throw s!"page op: {s}"
+    | _ => throw "page op: expected [kind] or [kind, width]") j "ops"
+  return Json.mkObj [("at_encode", jRats (widthsAtEncodes w0 ops)), ("final", jRat (configuredWidth w0 ops)),
+                     ("used", jRat (widthUsed (pageRun { colWidth := w0 } ops)))]
+
 namespace Widths
 def ops : List (String × (Json → R Json)) :=
   [("c08_col_widths", opColWidths), ("c08_section", opSection), ("c08_construct", opConstruct),
-   ("c08_construct_sections", opConstructSections)]
+   ("c08_construct_sections", opConstructSections), ("c08_page_history", opPageHistory)]
 end Widths
 
 end Driver
